@@ -1,5 +1,6 @@
 import ParanoidModel.Driver.Common
 import ParanoidModel.Model.RsaChecks
+import ParanoidModel.Driver.Rng
 namespace Paranoid.Driver
 open Paranoid.Proto
 
@@ -45,8 +46,14 @@ def rsaCheckOps : Dispatcher := fun op args =>
   | "chk.permuted_ds", [n] => do
       let n ← parseNat? n; pure (fmtNatList (permutedDenominators n))
   | "chk.pm1", [n, m, gb] => do
-      let n ← parseNat? n; let m ← parseNat? m; let gb ← parseNat? gb
+      let n ← parseNat? n; let m ← parseNatF? m; let gb ← parseNat? gb
       pure ("ok " ++ fmtVerdict (vPollard n m gb))
+  | "chk.pm1_product", [bound, exps] => do
+      let bound ← parseOptNat? bound; let exps ← parseNatList? exps
+      pure (hexNatF (pollardProduct bound exps))
+  | "chk.pm1_exps", [bound] => do
+      let bound ← parseOptNat? bound
+      pure (fmtNatList (pollardExpsDocumented bound))
   | "chk.lhw", [n, cutoff, maxsteps] => do
       let n ← parseNat? n; let c ← parseNat? cutoff; let ms ← parseNat? maxsteps
       pure ("ok " ++ fmtVerdict (vLhw n c ms))
